@@ -21,7 +21,7 @@ ASSUMPTIONS = [
 
 GOOD = ['{a}', '[c]', '{}', '[]']
 BAD = ['{x', 'x]', '[x}', '{x]', 'x', '']
-IDX = [0, 1, 2, -1, -2, 'len', 'len+3', '-len', '-len-1', '-len-3']
+IDX = [0, 1, -1, -2, 'len', 'len+3', '-len-1', '-len-3']
 INITS = [(), ('G1',), ('G1', 'K'), ('G1', 'G2'), ('G1', 'G2', 'K')]
 
 
@@ -29,10 +29,10 @@ def op_templates(reduced=False):
     ops = []
     for x in ['G1', 'G2', 'K'] + GOOD + (BAD[:3] if reduced else BAD):
         ops.append(('append', x))
-    ins_items = ['G2', 'K', '[c]', '{x]']
+    ins_items = ['G2', 'K', '[c]', '{x]', '{a}']      # '{a}' is coerced to a fresh textual twin of G1/G2
     idxs = [0, 1, -1, 'len', 'len+3', '-len-3'] if reduced else IDX
     for i in idxs:
-        for x in (ins_items[:2] if reduced else ins_items):
+        for x in (ins_items[:2] + ins_items[4:] if reduced else ins_items):
             ops.append(('insert', i, x))
     for x in ['G1', 'G2', 'K', '{a}', '[c]', '[zz]', 'x']:
         ops.append(('remove', x))
